@@ -388,6 +388,10 @@ class Result:
             ev["coverage"]["notes"] = self.notes
         if self.known:
             ev["coverage"]["known_findings_reported"] = self.known
+        if COVER_BLOCKS and os.environ.get("VERIF_COVER_DUMP"):
+            # development aid: the raw block table of this run (union over checks: tools/coverunion.py)
+            with open(os.path.join(os.environ["VERIF_COVER_DUMP"], self.prop + ".blocks.json"), "w") as f:
+                json.dump(COVER_BLOCKS, f)
         if COVER_BLOCKS:
             cw = Work(self.prop + "-cover")
             try:
